@@ -63,7 +63,7 @@ class C16(Check):
         "generator object with arbitrary use in between give identical record multisets (per patch for given centres), "
         "workers 4 == workers 1, and chi^2 (equal-area 6x6 cells) / KS (alpha, sin delta) uniformity at p < 1e-9. "
         "non-trivial = >= 2 chunks or >= 50 points; distinct = case parameters"
-        ' Further classes: zero weights, reseed() after construction, generate-mode vs centres-mode points, attribute samples as pandas Series, patch-like parent directories.'
+        ' Further classes: zero weights, reseed() after construction, reseed() of a used generator with its own seed (direct draws and catalogs), generate-mode vs centres-mode points, attribute samples as pandas Series, patch-like parent directories.'
     )
     assumptions = [
         "uniformity is a statistical verdict: false-alarm probability ~1e-9 per test, deterministic per seed",
@@ -272,6 +272,12 @@ class C16(Check):
             # ... also when the value given is the one it already has: reseeding a used generator restarts its stream (round 7)
             used = BoxRandoms(ra0, ra1, dec0, dec1, weights=w_arg, redshifts=z_arg, seed=seed)
             used(int(rng.integers(1, 40)))
+            used.reseed(seed)
+            m = int(rng.integers(1, 40))
+            direct, want_direct = used(m), BoxRandoms(ra0, ra1, dec0, dec1, weights=w_arg, redshifts=z_arg, seed=seed)(m)
+            counters["reproducibility_pairs"] += 1
+            if np.asarray(direct).tobytes() != np.asarray(want_direct).tobytes():
+                bad("reproducibility:reseed-with-own-seed-keeps-stream-position", dict(mode=case["mode"], direct_draw=True))
             used.reseed(seed)
             again = create("s", used, 1)
             counters["reproducibility_pairs"] += 1
